@@ -410,6 +410,12 @@ pub fn rec_response(args: &Args) {
     for c in ALL_RESPONSES {
         errs.push(json!({"code": {"some": true, "v": u8::from(MessageClass::Response(*c))}, "msg": jbytes("détail".as_bytes())}));
     }
+    // the diagnostic text is whatever the error carries: nothing at all, or more than a block
+    for code in [0x80u8, 0x84, 0xA0] {
+        errs.push(json!({"code": {"some": true, "v": code}, "msg": []}));
+        errs.push(json!({"code": {"some": true, "v": code}, "msg": jbytes("x".repeat(300).as_bytes())}));
+    }
+    errs.push(json!({"code": {"some": false}, "msg": []}));
     let mut mids: Vec<u16> = vec![0, 1, 255, 256, 0x7FFF, 0x8000, 0xFFFE, 0xFFFF];
     mids.extend((0..16).map(|b| 1u16 << b));
     for _ in 0..(if thorough { 200 } else { 8 }) {
